@@ -327,7 +327,7 @@ def ttmodel_case(ctx, table):
     real_rows = [[s, [[e, [[tr.get("<<<ACTIONNAME>>>"), tr.get("<<<GUARDNAME>>>"), tr.get("<<<NEXTSTATENAME>>>"), tr.get("<<<STATENAMEIFNEXTSTATE>>>")]
                            for tr in trs]] for e, trs in evd.items()]] for s, evd in m.transitionsperstate.items()]
     real = [list(m.states), list(m.events), list(m.actions), list(m.guards),
-            [[k, a, e] for k, (a, e) in m.actionsignatures.items()], tps, m.getfirststate()]
+            [[a, e] for _k, (a, e) in m.actionsignatures.items()], tps, m.getfirststate()]
     got = ctx.km.call("tt_model", table)
     dec = lambda v: [dec(x) for x in v] if isinstance(v, list) else v.decode()  # noqa
     got = dec(got)
